@@ -198,22 +198,57 @@ theorem newPacket_keeps (hI : Insens f) (hF : InsensFlags f) (st : St) (chan : N
 
 /-! ### SyncLogger operations, given what `add_config` keeps -/
 
-/-- hypothesis: `add_config` keeps `f` at `k` -/
-def AddKeeps {α : Type} (p : α → Prop) (f : Conf → α) (k : Nat) : Prop :=
-  ∀ (st : St) (h : Nat) (r : Res), addConfig st h = some r → KeepsAt p f k st r.st
+/-- hypothesis: `add_config` keeps `f` at `k`, on states whose table satisfies `q` -/
+def AddKeeps {α : Type} (q : Option Toc → Prop) (p : α → Prop) (f : Conf → α) (k : Nat) : Prop :=
+  ∀ (st : St) (h : Nat) (r : Res), q st.toc → addConfig st h = some r → KeepsAt p f k st r.st
 
-theorem slConnectLoop_keeps (hI : Insens f) (hadd : AddKeeps p f k) (s : Nat) : ∀ (hs : List Nat) (st : St) (r : Res),
-    slConnectLoop s hs st = some r → KeepsAt p f k st r.st := by
+theorem addConfig_toc {st : St} {h : Nat} {r : Res} (hr : addConfig st h = some r) : r.st.toc = st.toc := by
+  unfold addConfig addConfigWith at hr
+  split at hr
+  · cases hr
+  · split at hr
+    · cases hr; rfl
+    · split at hr
+      split at hr
+      · cases hr; rfl
+      · split at hr
+        · cases hr; rfl
+        · split at hr <;> (cases hr; rfl)
+
+theorem create_toc (st : St) (h : Nat) (c : Conf) : (create st h c).st.toc = st.toc := by
+  unfold create
+  split
+  split
+  · split <;> rfl
+  · rfl
+
+theorem start_toc {st : St} {h : Nat} {r : Res} (hr : start st h = some r) : r.st.toc = st.toc := by
+  unfold start at hr
+  split at hr
+  · cases hr
+  · split at hr
+    · cases hr; rfl
+    · split at hr
+      · split at hr
+        · cases hr; exact create_toc st h _
+        · split at hr <;> (cases hr; rfl)
+      · cases hr; rfl
+
+variable {q : Option Toc → Prop}
+
+theorem slConnectLoop_keeps (hI : Insens f) (hadd : AddKeeps q p f k) (s : Nat) : ∀ (hs : List Nat) (st : St) (r : Res),
+    q st.toc → slConnectLoop s hs st = some r → KeepsAt p f k st r.st := by
   intro hs
   induction hs with
-  | nil => intro st r h; simp only [slConnectLoop] at h; cases h; exact keepsAt_refl st
+  | nil => intro st r _ h; simp only [slConnectLoop] at h; cases h; exact keepsAt_refl st
   | cons h hs ih =>
-    intro st r hr
+    intro st r hq hr
     simp only [slConnectLoop] at hr
     split at hr
     · cases hr
     · rename_i r1 h1
-      have k1 := hadd st h r1 h1
+      have k1 := hadd st h r1 hq h1
+      have t1 := addConfig_toc h1
       split at hr
       · cases hr; exact k1
       · split at hr
@@ -231,10 +266,11 @@ theorem slConnectLoop_keeps (hI : Insens f) (hadd : AddKeeps p f k) (s : Nat) : 
               · cases hr
               · rename_i r3 h3
                 cases hr
-                exact keepsAt_trans k1 (keepsAt_trans k2 (keepsAt_trans k3 (ih r2.st r3 h3)))
+                have t2 : r2.st.toc = st.toc := by rw [start_toc h2]; exact t1
+                exact keepsAt_trans k1 (keepsAt_trans k2 (keepsAt_trans k3 (ih r2.st r3 (by rw [t2]; exact hq) h3)))
 
-theorem slConnect_keeps (hI : Insens f) (hadd : AddKeeps p f k) {st : St} {s : Nat} {r : Res}
-    (hr : slConnect st s = some r) : KeepsAt p f k st r.st := by
+theorem slConnect_keeps (hI : Insens f) (hadd : AddKeeps q p f k) {st : St} {s : Nat} {r : Res}
+    (hq : q st.toc) (hr : slConnect st s = some r) : KeepsAt p f k st r.st := by
   unfold slConnect at hr
   split at hr
   · cases hr
@@ -244,7 +280,7 @@ theorem slConnect_keeps (hI : Insens f) (hadd : AddKeeps p f k) {st : St} {s : N
       split at hr
       · cases hr
       · rename_i r1 h1
-        have k0 := slConnectLoop_keeps (p := p) (k := k) hI hadd s _ _ r1 h1
+        have k0 := slConnectLoop_keeps (p := p) (k := k) hI hadd s _ { st with discCbs := callerAdd st.discCbs s } r1 hq h1
         have k1 : KeepsAt p f k st r1.st := keepsAt_trans (keepsAt_of_confs rfl) k0
         split at hr
         · cases hr; exact k1
@@ -372,7 +408,7 @@ def Op.isSettingsRx : Op → Bool
 
 /-- Every operation except `add_variable`/`add_memory` on `k`, a settings packet (unless `f` ignores the
 flags) and `add_config` (handled by `hadd`) keeps `f` at `k`. -/
-theorem step_keeps (hI : Insens f) (hadd : AddKeeps p f k) (st : St) (op : Op) (r : Res)
+theorem step_keeps (hI : Insens f) (hadd : AddKeeps q p f k) (st : St) (op : Op) (r : Res) (hq : q st.toc)
     (hs : step st op = some r) (hedit : op.editsVars k = false)
     (hrx : InsensFlags f ∨ op.isSettingsRx = false) : KeepsAt p f k st r.st := by
   cases op with
@@ -397,7 +433,7 @@ theorem step_keeps (hI : Insens f) (hadd : AddKeeps p f k) (st : St) (op : Op) (
         intro c hc _
         exact ⟨c, by rw [conf_setConf_ne (fun e => hedit e.symm)]; exact hc, rfl⟩
       · cases hs; exact keepsAt_refl st
-  | addConfig h => exact hadd st h r hs
+  | addConfig h => exact hadd st h r hq hs
   | start h => exact start_keeps hI hs
   | stop h => rw [simpleCmd_st hs]; exact keepsAt_refl st
   | delete h => rw [simpleCmd_st hs]; exact keepsAt_refl st
@@ -430,22 +466,23 @@ theorem step_keeps (hI : Insens f) (hadd : AddKeeps p f k) (st : St) (op : Op) (
     split at hs
     · cases hs; exact keepsAt_of_confs rfl
     · cases hs
-  | slConnect s => exact slConnect_keeps hI hadd hs
+  | slConnect s => exact slConnect_keeps hI hadd hq hs
   | slDisconnect s => exact slDisconnect_keeps hI hs
   | slNext s => exact slNext_keeps hs
 
 /-! ### what `add_config` keeps -/
 
 theorem addConfig_keeps (hI : Insens f)
-    (hres : ∀ (toc : Option Toc) (c : Conf), p (f c) → f (resolveDefaults toc c.defaults c).1 = f c) : AddKeeps p f k := by
-  intro st h r hr
+    (hres : ∀ (toc : Option Toc) (c : Conf), q toc → p (f c) → f (resolveDefaults toc c.defaults c).1 = f c) :
+    AddKeeps q p f k := by
+  intro st h r hq hr
   unfold addConfig addConfigWith at hr
   split at hr
   · cases hr
   · rename_i c0 hc
     split at hr
     · cases hr; exact keepsAt_refl st
-    · have hres0 := hres st.toc c0
+    · have hres0 := hres st.toc c0 hq
       generalize resolveDefaults st.toc c0.defaults c0 = rr at hr hres0
       obtain ⟨c1, e1⟩ := rr
       simp only at hr hres0
@@ -498,11 +535,11 @@ theorem resolveDefaults_flags (toc : Option Toc) : ∀ (ds : List Nat) (c : Conf
         rw [ih]
         exact (addVariable_flags hc' : flagsOf c' = flagsOf c)
 
-theorem addConfig_keeps_flags (k : Nat) : AddKeeps (fun _ => True) flagsOf k :=
-  addConfig_keeps insens_flags (fun toc c _ => resolveDefaults_flags toc c.defaults c)
+theorem addConfig_keeps_flags (k : Nat) : AddKeeps (fun _ => True) (fun _ => True) flagsOf k :=
+  addConfig_keeps insens_flags (fun toc c _ _ => resolveDefaults_flags toc c.defaults c)
 
-theorem addConfig_keeps_vars (k : Nat) : AddKeeps (fun x => x.2 = []) varsOf k :=
-  addConfig_keeps insens_vars (fun toc c hp => by
+theorem addConfig_keeps_vars (k : Nat) : AddKeeps (fun _ => True) (fun x => x.2 = []) varsOf k :=
+  addConfig_keeps insens_vars (fun toc c _ hp => by
     have hd : c.defaults = [] := hp
     rw [hd]; rfl)
 
